@@ -748,6 +748,9 @@ func (s *scn) flush() *blockResult {
 				}
 			}
 			s.logf("  replica %d executed a competing block %d (without tx %d) first", r.id, h, int(h)%len(txs))
+			if r.id == 0 {
+				s.pokeViews() // API clients query the node at any time, also while the competing block is its head
+			}
 		}
 		if r.pol.Reader && !s.inSetup && len(results) > 0 {
 			// keys and accounts the block changed, as seen on the reference replica
@@ -1216,4 +1219,41 @@ func panicSite() string {
 		}
 	}
 	return strings.Join(out, " < ")
+}
+
+// pokeViews issues the queries an API client may send at any moment (status of recent cross-chain transactions,
+// interchain counters, object records) through the node's read-only executor and ignores the answers: what the node
+// answers later, after the block stream has moved on, is what the oracles judge.
+func (s *scn) pokeViews() {
+	if len(s.reps) == 0 || len(s.users) == 0 {
+		return
+	}
+	who := s.users[0]
+	var q []pb.Transaction
+	if s.ibtp != nil {
+		ids := s.ibtp.order
+		if len(ids) > 24 {
+			ids = ids[len(ids)-24:]
+		}
+		for _, id := range ids {
+			q = append(q, viewTx(who, constant.TransactionMgrContractAddr, "GetStatus", pb.String(id)))
+		}
+		for k := range s.ibtp.pairs {
+			p := s.ibtp.pairs[k]
+			q = append(q, viewTx(who, constant.InterchainContractAddr, "GetInterchain", pb.String(p.from)))
+		}
+	}
+	for _, c := range s.chains {
+		q = append(q, viewTx(who, constant.AppchainMgrContractAddr, "GetAppchain", pb.String(c.id)))
+		for _, sv := range c.services {
+			q = append(q, viewTx(who, constant.ServiceMgrContractAddr, "GetServiceInfo", pb.String(c.id+":"+sv.id)))
+		}
+	}
+	for _, id := range s.proposals {
+		q = append(q, viewTx(who, constant.GovernanceContractAddr, "GetProposal", pb.String(id)))
+	}
+	if len(q) > 0 {
+		s.reps[0].viewCall(q...)
+		s.res.Count("fault_api_queries_while_competing_block_is_head")
+	}
 }
